@@ -875,6 +875,10 @@ class DATETIME(NUMERIC):
         year = month = day = hour = minute = second = microsecond = None
         if len(qstring) >= 4:
             year = int(qstring[:4])
+            if year < datetime.MINYEAR:
+                # datetime has no year 0: floor()/ceil() of such a date raise
+                # later, outside the callers' handling of unparseable dates
+                raise ValueError("%r is not a parseable date" % qstring)
         if len(qstring) >= 6:
             month = int(qstring[4:6])
         if len(qstring) >= 8:
